@@ -357,7 +357,8 @@ try:
     open(p, "w", encoding="utf-8", newline="").write(case["t"])
     outs = []
     for _ in range(2):
-        info = ReuseInfo(spdx_expressions={_LICENSING.parse(x) for x in case["lic"]}, copyright_lines=set(case["cpr"]))
+        info = ReuseInfo(spdx_expressions={_LICENSING.parse(x) for x in case["lic"]}, copyright_lines=set(case["cpr"]),
+                         contributor_lines=set(case.get("con", [])))
         add_header_to_file(p, info, None, False, "python", merge_copyrights=True, out=io.StringIO())
         outs.append(open(p, encoding="utf-8", newline="").read())
     print(json.dumps(outs))
@@ -379,6 +380,8 @@ class SeedStream(Stream):
         {"t": "", "cpr": ["SPDX-FileCopyrightText: 2020 Jane Doe", "SPDX-FileCopyrightText: 2022 Jane Doe", "SPDX-FileCopyrightText: 2021 ACME"],
          "lic": ["MIT", "0BSD"], "judged": True},
         {"t": "#!/bin/sh\n# note\n", "cpr": ["© 2019 张三", "© 2021 张三"], "lic": [], "judged": True},
+        {"t": "x = 1\n", "cpr": ["SPDX-FileCopyrightText: 2020 A", "SPDX-FileCopyrightText: 2020 B", "SPDX-FileCopyrightText: 2020 C", "SPDX-FileCopyrightText: 2020 D"],
+         "lic": ["MIT", "0BSD", "ISC", "Zlib"], "con": ["Alice", "Bob", "Carol", "Dave", "Eve"], "judged": True},
         {"t": "# © 2019 Jane Doe\n#\n# SPDX-License-Identifier: MIT\n\nx = 1\n", "cpr": ["SPDX-FileCopyrightText: 2021 Jane Doe"], "lic": ["MIT"],
          "judged": False},
         {"t": "# Copyright (C) 2018 Jane Doe\n# SPDX-FileCopyrightText: 2019 Jane Doe\n\nx = 1\n", "cpr": ["© 2021 Jane Doe"], "lic": [],
